@@ -220,6 +220,13 @@ theorem C12_no_const_write_site : ∀ e : Ex, sitesOk e = true → ∀ s ∈ wri
     · exact C12_no_const_write_site a h.1.2 s hs
     · exact C12_no_const_write_site b h.2 s hs
 
+/-- Chains of assignment operators group to the right: `m = c += 1` is `m = (c += 1)`, `m -= c <<= 1` is `m -= (c <<= 1)`.
+    The inner write is a write site of the whole expression, so the chain is refused as soon as `c` is const-rooted --
+    whatever the outer operator `k1`, its target `m` and the operand `e` are. -/
+theorem C12_chain_rejected (k1 k2 : Kind) (m x e : Ex) (hk : isWriteKind k2 = true) (h : constRooted x = true) :
+    sitesOk (.binary k1 m (.binary k2 x e)) = false := by
+  simp [sitesOk, hk, C12_write_rejected k2 x hk h]
+
 /-! ### C12, acceptance: the same shapes on mutable objects pass the lvalue rule -/
 
 /-- A type with no const (and no function / process) part anywhere is mutable. -/
